@@ -1,6 +1,7 @@
 pub mod alloc;
 pub mod explore;
 pub mod guard;
+pub mod pbref;
 pub mod refcodec;
 pub mod report;
 pub mod val;
